@@ -126,6 +126,13 @@ func runTSCase(k TSCase) (verdict string) {
 		if got != t {
 			return fmt.Sprintf("reference encoding read as %v %+v", got, got)
 		}
+		// the same bytes arriving two at a time (a timestamp's sub-fields are read one after the other)
+		if k.Variant%2 == 0 {
+			pobs := ionx.Observe(ion.NewReader(&chunkReader{data: data, chunks: []int{2}, failAt: -1}))
+			if pgot, pok := tsOne(pobs.Vals); pobs.Failed() || !pok || pgot != t {
+				return fmt.Sprintf("reference encoding delivered two bytes per read: read as %v (ok %v), error %s", pgot, pok, pobs.ErrString())
+			}
+		}
 	case "ref-text":
 		obs := ionx.ReadAll([]byte(k.Text))
 		got, ok := tsOne(obs.Vals)
